@@ -17,7 +17,7 @@ LEVEL = 'exploration'
 POOL = ('résumé', 'resume', 'Resume', 'RESUME', 'résumé', 'soñar', 'sonar',
         'San José', 'san jose', 'San Jose', 'ハラペーニョ',
         'ﬁre', 'fire', 'İstanbul', 'istanbul', 'straße', 'strasse', 'wolves', 'wolf',
-        'axes', 'ax', 'axe', 'lemmata', 'lemma', 'x')
+        'axes', 'ax', 'axe', 'Axes', 'Wolves', 'lemmata', 'lemma', 'x')
 RULE = ('Hypothesis draws 1-2 lexicons (optionally an extension) whose written forms come from a '
         'pool of confusable strings (case, NFC/NFD, diacritics, ligature, multi-word, non-Latin, '
         'inflection-like), so that several stored forms collapse to one normalized form and forms '
@@ -64,21 +64,29 @@ def _cases(draw):
     qpool = sorted({v for f in (stored or ['x']) for v in _variants(f)} | {'zzz', 'resum'})
     configs = []
     for _ in range(2):
-        lem = draw(st.sampled_from(['none', 'none', 'table', 'morphy', 'morphy-init']))
+        lem = draw(st.sampled_from(['none', 'none', 'table', 'table', 'morphy', 'morphy-init']))
         table = {}
+        queries = []
         if lem == 'table':
-            for q in draw(st.lists(st.sampled_from(qpool), max_size=4, unique=True)):
-                table[q] = {
-                    p if p else '': draw(st.lists(st.sampled_from(qpool + list(POOL)),
-                                                  max_size=3, unique=True))
-                    for p in draw(st.lists(st.sampled_from(['', 'n', 'v', 'a']), max_size=2,
-                                           unique=True))}
+            # several (pos, forms) groups per query, mixing exactly stored forms with
+            # case/diacritic variants, so that one group can hit exactly while another
+            # only matches after normalization
+            cand = sorted(set(stored) | {v for f in stored for v in (f.upper(), f.title(),
+                                                                      norm(f))}) or ['x']
+            for q in draw(st.lists(st.sampled_from(qpool), min_size=2, max_size=6, unique=True)):
+                groups = draw(st.lists(st.sampled_from(['', 'n', 'v', 'a']), min_size=1,
+                                       max_size=3, unique=True))
+                table[q] = {p: draw(st.lists(st.sampled_from(cand), min_size=0, max_size=2,
+                                             unique=True)) for p in groups}
+            keys = sorted(table)
+            queries = [[draw(st.sampled_from(keys)), draw(st.sampled_from(POS))]
+                       for _ in range(10)]
         configs.append({
-            'normalizer': draw(st.booleans()),
+            'normalizer': draw(st.sampled_from([True, True, False])),
             'search_all_forms': draw(st.booleans()),
             'lemmatizer': lem, 'table': table,
-            'queries': [[draw(st.sampled_from(qpool)), draw(st.sampled_from(POS))]
-                        for _ in range(16)],
+            'queries': queries + [[draw(st.sampled_from(qpool)), draw(st.sampled_from(POS))]
+                                  for _ in range(16 - len(queries))],
         })
     return {'resource': res, 'selection': sel, 'configs': configs}
 
@@ -207,6 +215,19 @@ def _classify(case):
         tags.add('lem:' + cfg['lemmatizer'])
         tags.add(f'norm:{cfg["normalizer"]}')
         tags.add(f'all-forms:{cfg["search_all_forms"]}')
+        if cfg['lemmatizer'] == 'table':
+            for q, pos in cfg['queries']:
+                ent = cfg['table'].get(q, {})
+                cands = {(p or None): set(fs) for p, fs in ent.items() if fs}
+                if len(cands) >= 2:
+                    tags.add('lemmatizer-several-groups')
+                    firsts = {p: _search(view, 'words', {p: fs}, cfg['normalizer'],
+                                         cfg['search_all_forms']) for p, fs in cands.items()}
+                    if cfg['normalizer'] and any(firsts.values()):
+                        for p, fs in cands.items():
+                            if not firsts[p] and _search(view, 'words', {p: {norm(f) for f in fs}},
+                                                         True, cfg['search_all_forms']):
+                                tags.add('groups-mixed-hit-and-backoff-only')
         if cfg['lemmatizer'] != 'none':
             continue
         for q, pos in cfg['queries']:
@@ -242,5 +263,6 @@ SUBS = [
         budget={'quick': 250, 'thorough': 1500}, sample=_sample,
         fingerprint=lambda c: fingerprint(c),
         require_tags=('exact-hit', 'normalized-column-hit', 'back-off-hit',
-                      'miss-with-near-match', 'lem:table', 'lem:morphy', 'lem:morphy-init')),
+                      'miss-with-near-match', 'lem:table', 'lem:morphy', 'lem:morphy-init',
+                      'groups-mixed-hit-and-backoff-only')),
 ]
